@@ -243,6 +243,7 @@ def run_load(name, fmt, api, data, consume=("exhaust", 0), knobs=None, budget=No
     rec["neof"] = sum(h.neof + h.nerr for h in hs)
     rec["nopen"] = len(hs)
     rec["nread"] = sum(h.nread for h in hs)
+    rec["bulk_after_lines"] = sum(getattr(h, "bulk_after_lines", 0) for h in hs)
     lit = _SPY[-1] if _SPY else None
     rec["lit"] = None
     if lit is not None and hasattr(lit, "lineno") and hasattr(lit, "stack"):
@@ -354,7 +355,7 @@ def judge(trace, rec):
             seen = rec["nlines"] + rec["neof"]
             if ln is not None and not (0 <= ln <= seen):
                 out.append(_v("lineno_out_of_range", f"LoadError lineno {ln} but only {seen} lines were pulled from the file", trace))
-            elif ln is not None and ln > 0 and rec.get("nread", 0) > 0 and rec["nlines"] > 0:
+            elif ln is not None and ln > 0 and rec.get("bulk_after_lines", 0) > 0:
                 # line-wise parsing followed by a bulk read() of the rest: the reported line cannot be the last one read
                 out.append(_v("lineno_ignores_bulk_read", f"LoadError reports line {ln} but the rest of the file was consumed by a bulk read() after {rec['nlines']} lines", trace))
             elif ln is not None and rec["lit"] is not None and rec["nopen"] == 1 and ln != rec["lit"][0]:
